@@ -58,12 +58,28 @@ def _desc(draw, kind=None):
         fmt = {"kida": "kida", "umist-mod": "umist", "naunet": "naunet"}[kind]
         code = {"kida": 3, "umist": "NN", "naunet": 100}[fmt]
         lrs = [_lr(fmt, list(r), list(p), code, i + 1, a=draw(st.sampled_from([1e-10, 2.4e-9])), b=draw(st.sampled_from([0.0, 0.5])), c=draw(st.sampled_from([0.0, 10.0]))) for i, (r, p) in enumerate(sel)]
+        if kind == "naunet" and draw(st.integers(0, 1)) == 0:
+            # ice species on several grain-size groups (the group number follows the surface prefix), hh93 grains
+            groups = draw(st.sampled_from([[0], [1], [1, 9], [0, 8], [2, 10], [1, 2, 3], [3, 11, 19], [0, 1, 8, 9], [4, 12]]))
+            ices = draw(st.lists(st.sampled_from(["CO", "H2O", "H2"]), min_size=1, max_size=2, unique=True))
+            n = len(lrs)
+            for g in groups:
+                for x in ices:
+                    ice = f"#{g}{x}" if g else f"#{x}"
+                    lrs.append(_lr("naunet", [x], [ice], 200, n + 1, a=1.0))
+                    lrs.append(_lr("naunet", [ice], [x], 201, n + 2, a=1.0))
+                    n += 2
+            d["grain_model"] = "hh93"
+            d["kind"] = "naunet-grain-groups"
         d["fmt"] = fmt
         d["text"] = "\n".join(L.encode(lr, {"padded": True}) for lr in lrs) + "\n"
+        if draw(st.booleans()):
+            # extra species that take part in no reaction (config: species.required / --extra-species)
+            d["required"] = draw(st.lists(st.sampled_from(["Ne", "Ar", "Mg", "Si", "S", "N", "N2", "Fe", "Na"]), min_size=1, max_size=4, unique=True))
         if kind == "umist-mod":
             d["rate_mod"] = {"1": draw(st.sampled_from(["0.0", "1.0e-9 * nH"]))}
         if kind == "kida" and draw(st.booleans()):
-            d["elements"] = ["e", "H", "He", "C", "O"]
+            d["elements"] = ["e", "H", "He", "C", "O"] + sorted({"Ne", "Ar", "Mg", "Si", "S", "N", "Fe", "Na"} & {x.rstrip("2") for x in d["required"]})
             d["pseudo"] = ["CR", "CRP", "Photon"]
     elif kind == "uclchem-upper":
         up = lambda s: s.replace("He", "HE").replace("e-", "E-")
@@ -316,7 +332,7 @@ def check_case(case, tier):
 
     failures = []
     descs, ops = case["descs"], case["ops"]
-    labels = sorted({f"desc-{d['kind']}" for d in descs})
+    labels = sorted({f"desc-{d['kind']}" for d in descs} | {"required-unreacting-species" for d in descs if len(d["required"]) >= 2})
     got = call("vtlib.checks.c17", "run_scenario", case, hashseed=0)
     nontrivial = False
     seen_ops = []
